@@ -49,6 +49,10 @@ type Run struct {
 	// (fault_enumeration engines); 0 means 1.
 	Evaluations int64
 
+	// KnownHits counts divergences that matched an entry of the known-findings
+	// file and were handled softly (counted, state resynchronised, run goes on).
+	KnownHits map[string]int64
+
 	// WantSample asks the property to fill Sample with a decoded, readable form
 	// of the run (tasks, operations, reader script, faults).
 	WantSample bool
@@ -127,6 +131,26 @@ func (r *Run) Fail(class, key, format string, a ...any) {
 }
 
 func (r *Run) Failed() bool { return r.V != nil }
+
+// KnownKeys holds "class|key" of the known (unrepaired) findings of the
+// property being run; it is loaded from the committed known-findings file by
+// the worker for sweeps and left empty for replays, which are always strict.
+var KnownKeys = map[string]bool{}
+
+// Known reports whether (class, key) is a listed known finding; if so the hit
+// is counted and the property may resynchronise and continue instead of
+// stopping the run at a divergence that is already on record.
+func (r *Run) Known(class, key string) bool {
+	ck := class + "|" + key
+	if !KnownKeys[ck] {
+		return false
+	}
+	if r.KnownHits == nil {
+		r.KnownHits = map[string]int64{}
+	}
+	r.KnownHits[ck]++
+	return true
+}
 
 // HarnessError aborts the worker with exit status 2: the harness itself is
 // inconsistent (generator produced something its own reference rejects, …).
